@@ -19,7 +19,8 @@ def run(R):
     for i, (variant, env) in enumerate(CFGS):
         exe = R.cc("ed25519_driver", ["ed25519_driver.c"], variant)
         out = R.path("ed", "e%d.ndjson" % i)
-        R.run([exe, str(R.seed), str(nh), out], env=env, ok_codes=(0, 70), timeout=1800)
+        # the first configuration also searches for valid signatures whose challenge scalar has a run of >= 27 one-bits (8 x 2^22 candidates, thorough 8 x 2^24)
+        R.run([exe, str(R.seed), str(nh), out] + ([("24" if thorough else "22")] if i == 0 else []), env=env, ok_codes=(0, 70), timeout=1800)
         for ln in open(out):
             if ln.startswith('{"e":"crash"'):
                 R.violation("driver crashed in configuration %s" % variant, {"variant": variant}, name="crash")
